@@ -124,7 +124,7 @@ Invocation(n, b, m, d, sub, td, isLast) ==
               ELSE IF anyfail THEN "FAIL" ELSE "PASS"
   IN [rec |-> [name |-> n.name, oc |-> post, res |-> r3, sub |-> SubName(sub),
                marg |-> (pre = "PASS" /\ m = "m"),
-               dg |-> [i \in 1..Len(dg) |-> dg[i].r]],
+               dg |-> [i \in 1..Len(dg) |-> dg[i].r], sup |-> FALSE],
       res |-> IF hit THEN "STOP" ELSE r3,
       dg |-> dg]
 
@@ -222,7 +222,9 @@ PhaseInvoke(f, b, m, d) ==
       inv == Invocation(n, b, m, d, f.sub, f.td, isLast)
   IN /\ calls' = Append(calls, [n |-> n.name, b |-> b, m |-> m, d |-> d, seen |-> Seen,
                                att |-> f.att, pl |-> plugs.live])
-     /\ recs' = Append(recs, inv.rec)
+     \* sup: this invocation is superseded by a retry of the same phase
+     /\ recs' = Append(recs, [inv.rec EXCEPT !.sup = (ShouldRepeat(n, inv.res, inv.rec.oc)
+                                                        /\ ~isLast /\ inv.res # "KILL")])
      /\ diags' = diags \o inv.dg
      /\ store' = store \cup {inv.dg[i].r : i \in 1..Len(inv.dg)}
      /\ abort' = (abort \/ b = "A")
@@ -252,7 +254,7 @@ PhaseStep ==
 (* Dispatch of a node frame *)
 
 SkipRec(f) == [name |-> f.n.name, oc |-> "SKIP", res |-> "SKIP", sub |-> SubName(f.sub),
-               marg |-> FALSE, dg |-> <<>>]
+               marg |-> FALSE, dg |-> <<>>, sup |-> FALSE]
 
 DoPhase(f) ==
   IF ~f.td /\ SubFailed(f.sub)
@@ -487,6 +489,16 @@ Spec == Init /\ [][Next]_vars
 Done == status = "done"
 RecOcs == {recs[i].oc : i \in 1..Len(recs)}
 AllPhaseNames == PhaseNames(P.root)
+\* outcomes of records that were not superseded by a retry of the same phase
+FinalOcs == {recs[i].oc : i \in {j \in 1..Len(recs) : ~recs[j].sup}}
+
+(* KNOWN FINDING C01/superseded-error (named deviation; see DESIGN 6): an
+   invocation that ended ERROR (exception, timeout) but was retried because of
+   force_repeat / repeat_on_timeout keeps its ERROR record, and the run can still
+   end PASS.  The statement of C01 forbids PASS with any ERROR record; the code
+   (and therefore this machine) allows it for superseded records only. *)
+KF_C01_SupersededError ==
+  Done /\ outcome = "PASS" /\ \E i \in 1..Len(recs) : recs[i].sup /\ recs[i].oc = "ERROR"
 
 (* C01: "the record outcome is PASS only if every declared phase node either
    ran to a non-failing outcome or was skipped by a documented rule, no recorded
@@ -496,7 +508,8 @@ AllPhaseNames == PhaseNames(P.root)
 NoFalsePass == (Done /\ outcome = "PASS") =>
   /\ \A n \in AllPhaseNames : n \in DOMAIN gh.fate
         /\ gh.fate[n] \in {"ran", "skip_runif", "skip_branch", "skip_subtest"}
-  /\ RecOcs \cap {"FAIL", "ERROR"} = {}
+  /\ FinalOcs \cap {"FAIL", "ERROR"} = {}
+  /\ "FAIL" \notin RecOcs
   /\ ~(recs # <<>> /\ RecOcs = {"SKIP"})
   /\ ~(\E i \in 1..Len(diags) : diags[i].fail)
   /\ ~(\E i \in 1..Len(subs) : subs[i].oc = "FAIL")
@@ -514,7 +527,7 @@ Converse == Done =>
   /\ (outcome \in {"PASS", "FAIL", "ERROR", "TIMEOUT", "ABORTED"})
 
 (* an ERROR phase record never coexists with a non-terminal run *)
-ErrorIsTerminal == ("ERROR" \in RecOcs) => last # "NONE"
+ErrorIsTerminal == ("ERROR" \in FinalOcs) => last # "NONE"
 
 (* C02 sanity: record lists only grow, one branch record per evaluation *)
 RecordsOnlyGrow == [][/\ Len(recs') >= Len(recs) /\ SubSeq(recs', 1, Len(recs)) = recs
